@@ -233,7 +233,7 @@ func init() {
 		call(fr.i, fr, token.NoPos, args[0], nil)
 		return
 	}
-	verifAPI["verifSymbolic"] = func(fr *frame, args []value) value { return fr.i.vector == nil }
+	verifAPI["verifSymbolic"] = func(fr *frame, args []value) value { return fr.i.vector == nil || fr.i.simulate }
 	verifAPI["verifObserve"] = func(fr *frame, args []value) value {
 		if fr.i.vector != nil {
 			fr.i.concreteEvents = append(fr.i.concreteEvents, "observe "+strArg(args[0])+"="+observeString(args[1].(iface).v))
